@@ -71,7 +71,7 @@ func vgxReadInts(sh *tsdb.Shard, m, f string) (map[int64]int, error) {
 type vgxDel struct {
 	Lo   int    `json:"lo"`
 	Hi   int    `json:"hi"`
-	Pred string `json:"pred"` // "" | "s<N>": AND s = 's<N>' | "!x": AND x != 'q' (no point has a tag x: selects every series)
+	Pred string `json:"pred"` // "" | "s<N>": AND s = 's<N>' | "!x": AND x != 'q' (no point has a tag x: selects every series) | "*": Store.DeleteMeasurement (everything)
 }
 
 type vgxRound struct {
@@ -98,6 +98,9 @@ func vgxBatch(m string, w, S, T int) []models.Point {
 }
 
 func (d vgxDel) selects(s, t int) bool {
+	if d.Pred == "*" {
+		return true
+	}
 	return t >= d.Lo && t <= d.Hi && (d.Pred == "" || d.Pred == "!x" || d.Pred == fmt.Sprintf("s%d", s))
 }
 
@@ -114,6 +117,7 @@ func (d vgxDel) cond() influxql.Expr {
 const (
 	vgxBase = 0
 	vgxLate = 9
+	vgxND   = 3 // deletes per round
 )
 
 // vgxClassify checks one round's final content; returns (signature, detail) of the first violation.
@@ -200,7 +204,7 @@ func vgxClassify(rd vgxRound, nW int, v1, v2 map[int64]int) (string, string) {
 func TestVerifEpochStoreRace(t *testing.T) {
 	rounds := vtrace.EnvInt("VERIF_ROUNDS", 40)
 	index := vtrace.Env("VERIF_INDEX", "inmem")
-	nW := vtrace.EnvInt("VERIF_WRITERS", 2)
+	nW := vtrace.EnvInt("VERIF_WRITERS", 3)
 	rnd := rand.New(rand.NewSource(vtrace.Seed()*7919 + int64(len(index))))
 	s := MustOpenStore(index)
 	defer s.Close()
@@ -220,8 +224,10 @@ func TestVerifEpochStoreRace(t *testing.T) {
 	var done []vgxRound
 	mism, allGone, noneGone, pairs := 0, 0, 0, 0
 	for r := 0; r < rounds && mism < 3; r++ {
-		rd := vgxRound{Round: r, M: fmt.Sprintf("m%d", r), S: 2 + rnd.Intn(5), T: 4 + rnd.Intn(6)}
-		for j := 0; j < 2; j++ {
+		// batches large enough (hundreds of points, two fields each, tens of series) that the engine's phases of a
+		// write (series creation in the index, cache, WAL) and of a delete are long compared with scheduling noise
+		rd := vgxRound{Round: r, M: fmt.Sprintf("m%d", r), S: 8 + rnd.Intn(24), T: 6 + rnd.Intn(14)}
+		for j := 0; j < vgxND; j++ {
 			lo := rnd.Intn(rd.T)
 			hi := lo + rnd.Intn(rd.T-lo)
 			d := vgxDel{Lo: lo, Hi: hi}
@@ -230,11 +236,18 @@ func TestVerifEpochStoreRace(t *testing.T) {
 				d.Pred = fmt.Sprintf("s%d", rnd.Intn(rd.S))
 			case 1:
 				d.Pred = "!x"
+			case 2:
+				if rnd.Intn(3) == 0 {
+					d.Pred = "*"
+				}
+			}
+			if fp := os.Getenv("VERIF_FORCE_PRED"); fp != "" {
+				d.Pred = fp
 			}
 			rd.Dels = append(rd.Dels, d)
 		}
-		for i := 0; i < nW+2; i++ {
-			rd.Spin = append(rd.Spin, rnd.Intn(40))
+		for i := 0; i < nW+vgxND; i++ {
+			rd.Spin = append(rd.Spin, rnd.Intn(150)) // start offset in percent of the duration of the base write
 		}
 		if fixed != nil {
 			m := rd.M
@@ -243,8 +256,16 @@ func TestVerifEpochStoreRace(t *testing.T) {
 		}
 		sh := s.Shard(1)
 		sh.SetCompactionsEnabled(true)
+		t0 := time.Now()
 		if err := s.WriteToShard(1, vgxBatch(rd.M, vgxBase, rd.S, rd.T)); err != nil {
 			t.Fatal(err)
+		}
+		unit := time.Since(t0) / 100
+		// jitter only: spreads the start of the racing calls over the duration of a write; nothing depends on it
+		jitter := func(pct int) {
+			for end := time.Now().Add(time.Duration(pct) * unit); time.Now().Before(end); {
+				runtime.Gosched()
+			}
 		}
 		if r%3 == 1 {
 			// some rounds delete from TSM files, not only from the cache
@@ -266,9 +287,7 @@ func TestVerifEpochStoreRace(t *testing.T) {
 			go func() {
 				defer wg.Done()
 				<-start
-				for i := 0; i < rd.Spin[w-1]; i++ {
-					runtime.Gosched()
-				}
+				jitter(rd.Spin[w-1])
 				if err := s.WriteToShard(1, pts); err != nil {
 					errs <- fmt.Errorf("write w%d: %v", w, err)
 				}
@@ -280,10 +299,14 @@ func TestVerifEpochStoreRace(t *testing.T) {
 			go func() {
 				defer wg.Done()
 				<-start
-				for i := 0; i < rd.Spin[nW+j]; i++ {
-					runtime.Gosched()
+				jitter(rd.Spin[nW+j])
+				var err error
+				if d.Pred == "*" {
+					err = s.DeleteMeasurement("db0", rd.M)
+				} else {
+					err = s.DeleteSeries("db0", []influxql.Source{&influxql.Measurement{Name: rd.M}}, d.cond())
 				}
-				if err := s.DeleteSeries("db0", []influxql.Source{&influxql.Measurement{Name: rd.M}}, d.cond()); err != nil {
+				if err != nil {
 					errs <- fmt.Errorf("delete %d: %v", j, err)
 				}
 			}()
